@@ -32,6 +32,10 @@ func genC13(mode string) func(t *rapid.T) c13Case {
 			maxN = 16
 		}
 		n := rapid.IntRange(3, maxN).Draw(t, "clients")
+		// plus a crowd of cheap requests (answered without proving): they cost nothing and multiply the chances that
+		// two requests are inside the body-reading / decoding / error paths at the same time
+		crowd := rapid.IntRange(4, 20).Draw(t, "crowd")
+		n += crowd
 		// at least two valid requests with their own histories (distinct hashes) and one failing one
 		for i := 0; i < n; i++ {
 			cl := c13Client{OffsetMs: rapid.IntRange(0, 30).Draw(t, "offset")}
@@ -47,8 +51,16 @@ func genC13(mode string) func(t *rapid.T) c13Case {
 				m := genValidParams(t, mode, 3, 2)
 				m.PostRoot = addMod(m.PostRoot, 1)
 				cl.Req = genReq{Method: "POST", Body: m.writeDoc(styleHexLower), Class: "near-valid:post+1", Expect: "proving_error"}
-			case rapid.IntRange(0, 5).Draw(t, "scrape") == 0:
+			case rapid.IntRange(0, 7).Draw(t, "scrape") == 0:
 				cl.Scrape = true
+			case i >= n-crowd:
+				for {
+					cl.Req = genRequest(t, mode, 3, 2)
+					if cl.Req.Expect != "valid" && cl.Req.Expect != "gray" && cl.Req.PadLen == 0 {
+						break
+					}
+				}
+				cl.OffsetMs = rapid.IntRange(0, 400).Draw(t, "crowd_offset")
 			default:
 				cl.Req = genRequest(t, mode, 3, 2)
 				if cl.Req.PadLen == 0 && rapid.IntRange(0, 3).Draw(t, "pad_any") == 0 && strings.HasPrefix(cl.Req.Body, "{") && cl.Req.Method == "POST" {
